@@ -176,16 +176,21 @@ PROPS["C19"] = {
 PROPS["C15"] = {
     "title": "Walking a curve tiles the parameter range with the requested spacing",
     "gen_modules": ["Basis", "Walk"],
+    "props_modules": ["C15", "C15Vary"],
     "corr_n": (2000, 40000),
     "search_n": (2000, 40000),
     "technique": "Lean 4 theorems about the walk iterators translated WHOLE from walk.rs (inner loop included, as an opaque fuel iteration) + bit-exact Float mirror of the iterators run to exhaustion",
     "level_text": "walk_curve_unevenly(n): theorem that the generated iterator yields exactly n sections [k/n,(k+1)/n] tiling [0,1] exactly (first starts at 0, last ends at exactly 1, equal width). "
                   "walk_curve_evenly: for ANY curve, distance, tolerance and whatever the step controller inside the loop computes: None is returned exactly when the walk stands at >= 1; each section "
                   "starts where the walk stood, ends at or before 1 and the walk then stands at its end; hence the sections of a finished walk tile [0,1] exactly (even_tiling, induction over the run). "
-                  "The constructor starts at 0 with positive distance and tolerance. The generated iterators (Float) reproduce the implementation's sections bit for bit.",
+                  "The constructor starts at 0 with positive distance and tolerance. vary_by (Props/C15Vary): the part of VaryingWalkIterator::next that changes the even iterator is translated (vary_step: clamp, ratio, the two "
+                  "assignments to the nested fields); varied_tiling - for ANY distance iterator (a state and a next function: finite lists, cycles, zero and negative distances, ending whenever) the sections of the "
+                  "varied walk start where the walk stands, chain exactly, none ends after 1, and a finished walk ends at exactly 1 (tiling_of_step: one abstract induction used for every iterator whose steps behave "
+                  "like EvenWalkIterator::next); vary_step_spec / vary_step_distance_pos (the new distance is max(x, 1e-10) > 0, the increment is scaled by the ratio); varyUpdate_eq_generated: C20's hand model of "
+                  "this step equals the generated code. The generated iterators (Float) reproduce the implementation's sections bit for bit, varied walks (cycled and used-up distance lists) included.",
     "level_note": "Partial: termination (a lower bound on the increments) and the chord-length accuracy within max_error (convergence of the controller within 32 iterations) are not theorems; "
-                  "they are covered by the search on non-vanishing-speed curves. vary_by is checked on the real code only. " + COMMON_NOTE,
-    "rule": "corr: even walks (distance 0.5%..200% of the length, max_error 1..25% of it, up to 3000 sections) and uneven walks n in 1..300, compared section by section with the generated iterators. "
+                  "they are covered by the search on non-vanishing-speed curves. The glue of VaryingWalkIterator::next around vary_step (ask the iterator, drop it when exhausted, call the even iterator) is the 10-line variedStep of Props/C15Vary, tied by the bit-exact run. " + COMMON_NOTE,
+    "rule": "corr: even walks (distance 0.5%..200% of the length, max_error 1..25% of it, up to 3000 sections) uneven walks n in 1..300 and varied walks (0..5 distances incl. 0 and negative ones, cycled or used up, up to 2000 sections), compared section by section with the generated iterators. "
             "search: tiling exactness, chord spacing on non-vanishing-speed curves, termination cap, uneven counts/widths, vary_by tiling. Non-trivial: more than one section; distinct by input.",
     "trusted_base": ["iterFuel 64 stands for the loop bounded by MAX_ITERATIONS = 32"],
     "assumptions": ["exact arithmetic in the theorems; n as f64 is exact (n < 2^53)"],
